@@ -107,7 +107,9 @@ func methodFromPath(p string) *methodInfo {
 func observeBackendRequest(sc *Scenario, w http.ResponseWriter, r *http.Request) *BackendView {
 	v := &BackendView{Snap: snapshotRequest(r), Header: r.Header.Clone(), EscapedPath: r.URL.EscapedPath()}
 	var err error
-	if sc.Backend.ReadFirst > 0 {
+	if sc.Backend.ReadAfterWrites > 0 {
+		// full-duplex handler: starts answering before it reads (the rest of) the request, see writeResponse
+	} else if sc.Backend.ReadFirst > 0 {
 		buf := make([]byte, sc.Backend.ReadFirst)
 		n, _ := io.ReadFull(r.Body, buf)
 		v.Body = buf[:n]
@@ -487,7 +489,7 @@ type builtResponse struct {
 	Trailer     http.Header
 	NoBody      bool
 	CL          *int // overrides the declared Content-Length (fault injection)
-	reqBody     io.Closer
+	reqBody     io.ReadCloser
 }
 
 func pickResponseCompression(sc *Scenario, v *BackendView) string {
@@ -730,7 +732,7 @@ func respond(sc *Scenario, v *BackendView, w http.ResponseWriter) {
 	respondWithBody(sc, v, w, nil)
 }
 
-func respondWithBody(sc *Scenario, v *BackendView, w http.ResponseWriter, reqBody io.Closer) {
+func respondWithBody(sc *Scenario, v *BackendView, w http.ResponseWriter, reqBody io.ReadCloser) {
 	resp := buildResponse(sc, v)
 	resp.reqBody = reqBody
 	for _, o := range sc.Backend.Override {
@@ -789,6 +791,7 @@ func writeResponse(sc *Scenario, resp *builtResponse, w http.ResponseWriter) {
 	body := resp.Body
 	i := 0
 	writes := 0
+	requestRead := false
 	for len(body) > 0 {
 		n := len(body)
 		if b.WriteChunk > 0 && n > b.WriteChunk {
@@ -812,9 +815,17 @@ func writeResponse(sc *Scenario, resp *builtResponse, w http.ResponseWriter) {
 		if b.CloseBody && b.CloseAfterWrites > 0 && writes == b.CloseAfterWrites && resp.reqBody != nil {
 			_ = resp.reqBody.Close()
 		}
+		if b.ReadAfterWrites > 0 && writes == b.ReadAfterWrites && resp.reqBody != nil {
+			// like a streaming handler that reads its input only now - and carries on whatever the outcome
+			_, _, _ = readAll(resp.reqBody, b.ReadBuf)
+			requestRead = true
+		}
 		if fl != nil && b.FlushEvery > 0 && writes%b.FlushEvery == 0 {
 			fl.Flush()
 		}
+	}
+	if b.ReadAfterWrites > 0 && !requestRead && resp.reqBody != nil {
+		_, _, _ = readAll(resp.reqBody, b.ReadBuf)
 	}
 	for k, vals := range resp.Trailer {
 		key := k
